@@ -808,8 +808,13 @@ func parseClause(fc *FuncContract, w, rest string, en rawLine, path string) erro
 	case "implements":
 		tags, body := parseTags(rest)
 		parts := strings.Fields(body)
+		if len(parts) == 1 {
+			// a function type: no coupling invariant
+			fc.Impl = &ImplClause{Tags: tags, Iface: parts[0]}
+			break
+		}
 		if len(parts) != 3 || parts[1] != "inv" {
-			return fmt.Errorf("implements [tags] pkg.Iface inv predName")
+			return fmt.Errorf("implements [tags] pkg.Iface inv predName | implements [tags] pkg.FuncType")
 		}
 		fc.Impl = &ImplClause{Tags: tags, Iface: parts[0], Inv: parts[2]}
 	case "callees":
